@@ -64,3 +64,12 @@ impl RewardAddress {
     pub uninterp spec fn cred(&self) -> Credential;
     #[verifier::external_body] pub fn payment_cred(&self) -> (r: Credential) ensures r == self.cred() { unimplemented!() }
 }
+
+/// hashlink::LinkedHashMap as far as these functions use it: `values()` visits the values in insertion order (ASSUMED: a dependency)
+pub struct LinkedHashMap<K, V> { pub entries: Vec<(K, V)> }
+impl<K, V> LinkedHashMap<K, V> {
+    pub open spec fn vals(&self) -> Seq<V> { self.entries@.map_values(|e: (K, V)| e.1) }
+    #[verifier::external_body] pub fn values(&self) -> (r: core::slice::Iter<'_, V>)
+        ensures r.remaining() == refs(self.vals()), r.obeys_prophetic_iter_laws(), r.decrease() is Some { unimplemented!() }
+}
+opaque_types!(InputsMap, BootstrapSet);
